@@ -15,7 +15,7 @@ QUASI_SIGNS = ['Iterable', 'Container', 'Reversible']
 MAP_SIGNS = sorted(U.MAP_ORIGIN)
 SCALAR_CLASSES = ['int', 'str', 'bool', 'float', 'bytes', 'NoneType', 'UserA', 'UserB', 'UserC']
 SPIED = ['list', 'tuple', 'deque', 'UserList', 'set', 'frozenset', 'dict', 'defaultdict', 'OrderedDict',
-         'Counter', 'UserSeq', 'UserColl', 'UserIter', 'UserMap']
+         'Counter', 'UserSeq', 'UserColl', 'UserIter', 'UserMap', 'UserSizedIter']
 
 
 # ------------------------------------------------------------------ Coq printers
@@ -70,7 +70,7 @@ def coq_hint(h):
     if t == 'literal':
         return f'(HLiteral {coq_list([coq_val(v) for v in h[1]])})'
     if t == 'type':
-        return f'(HType {coq_list(["c_" + c for c in h[1]])})' if h[1] else '(HCls c_type)'
+        return f'(HType {coq_list(["c_" + c for c in h[1]])})' if h[1] else '(HShallow c_type)'
     if t == 'annot':
         return f'(HAnnot {coq_hint(h[1])} {coq_list([coq_vexp(v) for v in h[2]])})'
     raise ValueError(h)
@@ -163,7 +163,8 @@ def gen_hint(rng, depth):
         if r < 0.8:
             return gen_literal(rng)
         if r < 0.9:
-            return ['type', rng.choice([['int'], ['UserA'], ['int', 'str'], ['UserA', 'UserC'], []])]
+            return ['type', rng.choice([['int'], ['UserA'], ['int', 'str'], ['UserA', 'UserC'], [], ['type'],
+                                    ['type', 'int']])]
         return ['shallow', rng.choice(['Iterator', 'Generator']), ['cls', 'int']]
     r = rng.random()
     d = depth - 1
@@ -200,9 +201,10 @@ def gen_literal(rng):
     n = rng.choice([1, 1, 2, 3])
     out = []
     for v in rng.sample(pool, n):
-        # typing.Literal deduplicates by (value, type); avoid == look-alikes that it would merge or reorder
         out.append(v)
-    return ['literal', out]
+    # typing.Literal compares (and beartype memoises) order-insensitively: Literal['a', None] gets the code first
+    # generated for Literal[None, 'a'] in the same process; members are kept in one canonical order
+    return ['literal', sorted(out, key=json.dumps)]
 
 
 def hashable(v):
@@ -225,7 +227,8 @@ CONT_OF_ORIGIN = {
     'AbstractSet': ['set', 'frozenset', 'dict_keys'], 'MutableSet': ['set'],
     'Collection': ['list', 'set', 'UserColl', 'dict_values', 'tuple', 'deque', 'dict'], 'deque': ['deque'],
     'KeysView': ['dict_keys'], 'ValuesView': ['dict_values'],
-    'Iterable': ['list', 'UserIter', 'generator', 'list_iterator', 'set', 'UserColl', 'UserSeq', 'dict'],
+    'Iterable': ['list', 'UserIter', 'generator', 'list_iterator', 'set', 'UserColl', 'UserSeq', 'dict',
+                 'UserSizedIter', 'UserSizedIter'],
     'Container': ['list', 'UserCont', 'set', 'UserColl', 'tuple'], 'Reversible': ['list', 'UserSeq', 'dict', 'deque'],
 }
 MAP_OF_ORIGIN = {'dict': ['dict', 'defaultdict', 'OrderedDict', 'Counter'], 'Mapping': ['dict', 'UserMap', 'ChainMap'],
@@ -305,7 +308,8 @@ def gen_sat(rng, h, sizes=(0, 1, 2, 3)):
         if not h[1]:
             return ['cls', rng.choice(['int', 'UserA', 'list'])]
         c = rng.choice(h[1])
-        return ['cls', {'UserA': rng.choice(['UserA', 'UserB']), 'int': rng.choice(['int', 'bool'])}.get(c, c)]
+        return ['cls', {'UserA': rng.choice(['UserA', 'UserB']), 'int': rng.choice(['int', 'bool']),
+                        'type': rng.choice(['type', 'int', 'UserA'])}.get(c, c)]
     raise ValueError(h)
 
 
